@@ -1,4 +1,5 @@
-import Utv.Lemmas.C05Views
+import Utv.Lemmas.C05Frame
+import Utv.Lemmas.C05Wf
 /-!
 C05 — data-class parsing implements the declared field contract.
 
@@ -171,9 +172,10 @@ theorem contract_result_keys [DecidableEq V] (W : World V) (P : Parser V) (o : O
     | some v => simpa [hv] using he
   · right
     have hkk : kv.1 = k := by
-      cases hv : (additionContract W P.additionTyped o kv).1 with
-      | none => simp [hv] at he
-      | some v => simpa [hv] using he
+      generalize (additionContract W P.additionTyped (P.excludeVars.contains kv.1) o kv).1 = X at he
+      cases X with
+      | none => simp at he
+      | some v => simpa using he
     rw [List.mem_filter] at hkv
     rw [← hkk]
     unfold anyAccepts
@@ -228,8 +230,8 @@ also for a `no_output` field — and otherwise the deferred default (`defer_defa
 theorem C05_getattr_view [DecidableEq V] (W : World V) (LL : LowerLaws W) (P : Parser V) (hwf : P.wf W = true)
     (o : Opts V) (data : List (Key × V)) (hnd : (data.map (·.1)).Nodup) (m a : List (Key × V))
     (h : finish {} W P o (parseData {} W P o data) = .ok m a) :
-    ∀ kf ∈ P.fields, getattrView o kf.2 m a =
-      (dget kf.2.name (contract W P o data).result).orElse (fun _ => deferred o kf.2) := by
+    ∀ kf ∈ P.fields, getattrView W o kf.2 m a =
+      (dget kf.2.name (contract W P o data).result).orElse (fun _ => deferred W o kf.2) := by
   intro kf hf
   obtain ⟨h1, h2⟩ := (C05_attr_view W LL P hwf o data hnd m a h).1 kf hf
   unfold getattrView
@@ -241,7 +243,7 @@ theorem C05_getattr_view [DecidableEq V] (W : World V) (LL : LowerLaws W) (P : P
 /-- **C05 for `Cls.__from__(data, options=runtime)` from the declaration as written.** -/
 theorem C05_init_refines [DecidableEq V] (W : World V) (LL : LowerLaws W) (c : ClassDecl V)
     (runtime : Option (Opts V)) (data : List (Key × V)) (hnd : (data.map (·.1)).Nodup)
-    (hwf : (mkParser W c).wf W = true) :
+    (hnames : (mkParser W c).wfNames W = true) :
     let P := mkParser W c
     let o := (runtime.getD c.opts).normalise
     ((∃ m a, initSchema {} W c runtime data = .ok m a) ↔ (contract W P o data).errs = [])
@@ -249,26 +251,312 @@ theorem C05_init_refines [DecidableEq V] (W : World V) (LL : LowerLaws W) (c : C
     ∧ (∀ es, o.maxErrors = none → initSchema {} W c runtime data = .collected es →
         SetEq es (contract W P o data).errs) := by
   intro P o
+  have hwf : P.wf W = true := wf_of_struct (mkParserIn_struct W LL [] (by simp) c) hnames
   exact ⟨C05_success_iff W LL P hwf o data hnd,
     fun e h => C05_failfast_sound W LL P hwf o data hnd e h,
     fun es hm h => C05_collected_exact W LL P hwf o data hnd es hm h⟩
 
+/-! ### The documented clauses, one by one
+
+`Spec.contract` is executable; what each of its ingredients *means* is stated in `Model/C05Spec.lean` as propositions
+in the vocabulary of docs/en/references/field.md and options.md (`ModeOff`, `FlagOn`, `NeverInput`, `Required`,
+`IsDefault`, `AdditionRule`).  The theorems below tie the model of the code — its predicates, and the state
+`parse_data` returns — to those propositions directly. -/
+
+/-- **no_input**: the code ignores the input of a field exactly when the flag is on in the documented sense. -/
+theorem C05_no_input_iff (W : World V) (o : Opts V) (f : PField V) (v : V) :
+    isNoInput {} W o f v = true ↔ FlagOn W o f f.noInput v := by
+  rw [isNoInput_eq]; exact flagOn_iff W o f f.noInput v
+
+/-- **no_output** -/
+theorem C05_no_output_iff (W : World V) (o : Opts V) (f : PField V) (v : V) :
+    isNoOutput {} W o f v = true ↔ FlagOn W o f f.noOutput v := by
+  rw [isNoOutput_eq]; exact flagOn_iff W o f f.noOutput v
+
+/-- **required / ignore_required / mode**: `is_required` is the documented `Required`. -/
+theorem C05_required_iff (o : Opts V) (f : PField V) : isRequired {} o f = true ↔ Required o f := by
+  rw [isRequired_eq]; exact required_iff o f
+
+/-- **default / default_factory / defer_default / no_default / force_default**: `get_default(options, defer)` yields
+`x` exactly when `x` is the documented default — a copy (`copy_value`) of `force_default` if given, else of the field's
+own; nothing under `no_default`; at parse time iff not deferred, on attribute access iff deferred. -/
+theorem C05_default_iff (W : World V) (o : Opts V) (f : PField V) (defer : Bool) (x : V) :
+    getDefault W o f defer = some x ↔ IsDefault W o f defer x := by
+  cases defer
+  · rw [getDefault_false_eq]; exact filled_iff W o f x
+  · rw [getDefault_true_eq]; exact deferred_iff W o f x
+
+/-- **min_params / max_params** -/
+theorem C05_params_iff (o : Opts V) (n : Nat) (e : Err) :
+    e ∈ paramsCheck o n ↔
+      (e = .paramsExceed ∧ ∃ m, o.maxParams = some m ∧ m ≠ 0 ∧ n > m)
+      ∨ (e = .paramsLack ∧ ∃ m, o.minParams = some m ∧ m ≠ 0 ∧ n < m) := by
+  rw [paramsCheck_eq]; exact paramsContract_iff o n e
+
+/-- **addition**: `parse_addition` follows the documented rule (and the rule leaves no choice: `additionRule_unique`). -/
+theorem C05_addition_rule (W : World V) (P : Parser V) (o : Opts V) (k : Key) (v : V) :
+    AdditionRule W P.additionTyped (P.excludeVars.contains k) o k v
+      (parseAddition W P o k v).1 (parseAddition W P o k v).2 := by
+  have := parseAddition_eq W P o (k, v)
+  simp only at this
+  rw [this]
+  exact additionContract_rule W P.additionTyped (P.excludeVars.contains k) o (k, v)
+
+theorem additionContract_errs (W : World V) (typed excluded : Bool) (o : Opts V) (kv : Key × V) (e : Err)
+    (h : e ∈ (additionContract W typed excluded o kv).2) : e = .exceed kv.1 ∨ e = .parse kv.1 := by
+  have hr := additionContract_rule W typed excluded o kv
+  generalize (additionContract W typed excluded o kv).1 = r at hr
+  generalize (additionContract W typed excluded o kv).2 = es at hr h
+  cases hr <;> simp_all
+
+/-- **A missing required field is an absence error — and nothing else is.** -/
+theorem C05_absence_iff [DecidableEq V] (W : World V) (LL : LowerLaws W) (P : Parser V) (hwf : P.wf W = true)
+    (o : Opts V) (data : List (Key × V)) (hnd : (data.map (·.1)).Nodup) (n : Key) :
+    Err.absence n ∈ (parseData {} W P o data).errs ↔
+      ∃ kf ∈ P.fields, kf.2.name = n ∧ given W kf.2 data = false ∧ Required o kf.2 := by
+  rw [(C05_parse_data_refines W LL P hwf o data hnd).2 (.absence n)]
+  constructor
+  · intro h
+    rcases contract_errs_cases W P o data _ h with h | ⟨kf, hf, h⟩ | ⟨lack, _, h⟩ | ⟨kv, _, h⟩
+    · rcases (paramsContract_iff o data.length _).1 h with ⟨h, _⟩ | ⟨h, _⟩ <;> cases h
+    · rcases fieldContract_errs W o kf.2 data _ h with ⟨he, hg, hr⟩ | ⟨he | he, _⟩
+      · exact ⟨kf, hf, (Err.absence.inj he).symm, hg, (required_iff o kf.2).1 hr⟩
+      · cases he
+      · cases he
+    · cases h
+    · rcases additionContract_errs W _ _ o kv _ h with h | h <;> cases h
+  · rintro ⟨kf, hf, rfl, hg, hr⟩
+    apply contract_errs_of_field W P o data _ hf
+    have hc : candidates W kf.2 data = [] := by
+      unfold given at hg
+      cases h : candidates W kf.2 data with
+      | nil => rfl
+      | cons c r => rw [h] at hg; cases hg
+    unfold fieldContract
+    rw [hc, (required_iff o kf.2).2 hr]
+    simp
+
+/-- **A missing field that is not required takes its default (a copy), or stays absent.** -/
+theorem C05_missing_field_default [DecidableEq V] (W : World V) (LL : LowerLaws W) (P : Parser V) (hwf : P.wf W = true)
+    (o : Opts V) (data : List (Key × V)) (hnd : (data.map (·.1)).Nodup) (kf : Key × PField V) (hf : kf ∈ P.fields)
+    (hg : given W kf.2 data = false) (hr : ¬ Required o kf.2) (x : V) :
+    dget kf.2.name (parseData {} W P o data).result = some x ↔ IsDefault W o kf.2 false x := by
+  have wf := WF.of_wf hwf
+  rw [(C05_parse_data_refines W LL P hwf o data hnd).1 kf.2.name, contract_field_value LL wf o data hf, ← filled_iff]
+  have hc : candidates W kf.2 data = [] := by
+    unfold given at hg
+    cases h : candidates W kf.2 data with
+    | nil => rfl
+    | cons c r => rw [h] at hg; cases hg
+  have hreq : required o kf.2 = false := by
+    cases h : required o kf.2
+    · rfl
+    · exact absurd ((required_iff o kf.2).1 h) hr
+  unfold fieldContract
+  rw [hc, hreq]
+  simp
+
+/-- a missing required field holds no value -/
+theorem C05_missing_required_no_value [DecidableEq V] (W : World V) (LL : LowerLaws W) (P : Parser V)
+    (hwf : P.wf W = true) (o : Opts V) (data : List (Key × V)) (hnd : (data.map (·.1)).Nodup) (kf : Key × PField V)
+    (hf : kf ∈ P.fields) (hg : given W kf.2 data = false) (hr : Required o kf.2) :
+    dget kf.2.name (parseData {} W P o data).result = none := by
+  have wf := WF.of_wf hwf
+  rw [(C05_parse_data_refines W LL P hwf o data hnd).1 kf.2.name, contract_field_value LL wf o data hf]
+  have hc : candidates W kf.2 data = [] := by
+    unfold given at hg
+    cases h : candidates W kf.2 data with
+    | nil => rfl
+    | cons c r => rw [h] at hg; cases hg
+  unfold fieldContract
+  rw [hc, (required_iff o kf.2).2 hr]
+  simp
+
+/-- **Unknown keys follow the addition policy**: an input key no field accepts is rejected, dropped, kept or converted
+as `AdditionRule` says — that is what the instance holds under the key, and its errors are handled. -/
+theorem C05_unknown_key_rule [DecidableEq V] (W : World V) (LL : LowerLaws W) (P : Parser V) (hwf : P.wf W = true)
+    (o : Opts V) (data : List (Key × V)) (hnd : (data.map (·.1)).Nodup) (kv : Key × V) (hkv : kv ∈ data)
+    (hun : anyAccepts W P kv.1 = false) :
+    ∃ r es, AdditionRule W P.additionTyped (P.excludeVars.contains kv.1) o kv.1 kv.2 r es
+      ∧ dget kv.1 (parseData {} W P o data).result = r
+      ∧ ∀ e ∈ es, e ∈ (parseData {} W P o data).errs := by
+  have wf := WF.of_wf hwf
+  have hex : kv ∈ extras W P data := by
+    unfold extras; rw [List.mem_filter]; exact ⟨hkv, by simp [hun]⟩
+  refine ⟨_, _, additionContract_rule W P.additionTyped (P.excludeVars.contains kv.1) o kv, ?_, ?_⟩
+  · rw [(C05_parse_data_refines W LL P hwf o data hnd).1 kv.1]
+    exact contract_extra_value LL wf o data hnd hex
+  · intro e he
+    rw [(C05_parse_data_refines W LL P hwf o data hnd).2 e]
+    exact contract_errs_of_extra W P o data e hex he
+
+/-- **no_default**: a field that is not given holds no value at all. -/
+theorem C05_no_default_no_value [DecidableEq V] (W : World V) (LL : LowerLaws W) (P : Parser V) (hwf : P.wf W = true)
+    (o : Opts V) (data : List (Key × V)) (hnd : (data.map (·.1)).Nodup) (kf : Key × PField V) (hf : kf ∈ P.fields)
+    (hg : given W kf.2 data = false) (hno : o.noDefault = true) :
+    dget kf.2.name (parseData {} W P o data).result = none := by
+  by_cases hr : Required o kf.2
+  · exact C05_missing_required_no_value W LL P hwf o data hnd kf hf hg hr
+  · cases h : dget kf.2.name (parseData {} W P o data).result with
+    | none => rfl
+    | some x =>
+      have := ((C05_missing_field_default W LL P hwf o data hnd kf hf hg hr x).1 h).1
+      rw [hno] at this; cases this
+
+/-- **force_default**: a field that is not given (and not required, not deferred) holds a copy of the forced default,
+whatever default it declares itself. -/
+theorem C05_force_default_value [DecidableEq V] (W : World V) (LL : LowerLaws W) (P : Parser V) (hwf : P.wf W = true)
+    (o : Opts V) (data : List (Key × V)) (hnd : (data.map (·.1)).Nodup) (kf : Key × PField V) (hf : kf ∈ P.fields)
+    (hg : given W kf.2 data = false) (hr : ¬ Required o kf.2) (d : V) (hforce : o.forceDefault = some d)
+    (hno : o.noDefault = false) (hdf : (kf.2.deferDefault || o.deferDefault) = false) :
+    dget kf.2.name (parseData {} W P o data).result = some (W.copy d) :=
+  (C05_missing_field_default W LL P hwf o data hnd kf hf hg hr (W.copy d)).2 ⟨hno, hdf, d, rfl, Or.inl hforce⟩
+
+/-- **Fresh copy of the default**: whatever value a field that was not given ends up with is `copy_value` applied to
+a declared (or forced) default — never the declared object itself.  (`W.copy` is the model of `copy_value`; that the
+copy shares nothing mutable with the original, nested containers included, is compared on the real objects by the
+oracle: `fresh` in harness/c05.py.) -/
+theorem C05_default_is_copy [DecidableEq V] (W : World V) (LL : LowerLaws W) (P : Parser V) (hwf : P.wf W = true)
+    (o : Opts V) (data : List (Key × V)) (hnd : (data.map (·.1)).Nodup) (kf : Key × PField V) (hf : kf ∈ P.fields)
+    (hg : given W kf.2 data = false) (x : V) (hx : dget kf.2.name (parseData {} W P o data).result = some x) :
+    ∃ d, x = W.copy d ∧ (o.forceDefault = some d ∨ (o.forceDefault = none ∧ kf.2.default = some d)) := by
+  by_cases hr : Required o kf.2
+  · rw [C05_missing_required_no_value W LL P hwf o data hnd kf hf hg hr] at hx; cases hx
+  · exact ((C05_missing_field_default W LL P hwf o data hnd kf hf hg hr x).1 hx).2.2
+
+/-! ### "… and on nothing else": frame theorems
+
+Each behaviour option is compared with itself changed.  Where the option has nothing to act on, the parse is the same
+(as a map of values and a set of errors); where it has, the parse differs in the one documented component only. -/
+
+/-- equal contracts, equal parses -/
+theorem parse_frame [DecidableEq V] (W : World V) (LL : LowerLaws W) (P : Parser V) (hwf : P.wf W = true)
+    (o o' : Opts V) (data : List (Key × V)) (hnd : (data.map (·.1)).Nodup)
+    (h : contract W P o' data = contract W P o data) :
+    MapEq (parseData {} W P o' data).result (parseData {} W P o data).result
+    ∧ SetEq (parseData {} W P o' data).errs (parseData {} W P o data).errs := by
+  have h' := C05_parse_data_refines W LL P hwf o' data hnd
+  have h0 := C05_parse_data_refines W LL P hwf o data hnd
+  rw [h] at h'
+  exact ⟨fun k => (h'.1 k).trans (h0.1 k).symm, fun e => (h'.2 e).trans (h0.2 e).symm⟩
+
+/-- **ignore_required** touches required fields only: a class that declares none parses alike with it on or off. -/
+theorem C05_frame_ignore_required [DecidableEq V] (W : World V) (LL : LowerLaws W) (P : Parser V) (hwf : P.wf W = true)
+    (o : Opts V) (b : Bool) (data : List (Key × V)) (hnd : (data.map (·.1)).Nodup)
+    (hno : ∀ kf ∈ P.fields, kf.2.required = .no) :
+    MapEq (parseData {} W P { o with ignoreRequired := b } data).result (parseData {} W P o data).result
+    ∧ SetEq (parseData {} W P { o with ignoreRequired := b } data).errs (parseData {} W P o data).errs :=
+  parse_frame W LL P hwf o _ data hnd (frame_ignoreRequired W P o b data hno)
+
+/-- **no_default / defer_default** touch defaults only: with no default declared and none forced, nothing changes. -/
+theorem C05_frame_defaults [DecidableEq V] (W : World V) (LL : LowerLaws W) (P : Parser V) (hwf : P.wf W = true)
+    (o : Opts V) (a b : Bool) (data : List (Key × V)) (hnd : (data.map (·.1)).Nodup)
+    (hno : ∀ kf ∈ P.fields, kf.2.default = none) (hforce : o.forceDefault = none) :
+    MapEq (parseData {} W P { o with noDefault := a, deferDefault := b } data).result (parseData {} W P o data).result
+    ∧ SetEq (parseData {} W P { o with noDefault := a, deferDefault := b } data).errs (parseData {} W P o data).errs :=
+  parse_frame W LL P hwf o _ data hnd (frame_defaults W P o a b data hno hforce)
+
+/-- **force_default / defer_default** are void under no_default. -/
+theorem C05_frame_force_default [DecidableEq V] (W : World V) (LL : LowerLaws W) (P : Parser V) (hwf : P.wf W = true)
+    (o : Opts V) (d : Option V) (b : Bool) (data : List (Key × V)) (hnd : (data.map (·.1)).Nodup)
+    (hno : o.noDefault = true) :
+    MapEq (parseData {} W P { o with forceDefault := d, deferDefault := b } data).result (parseData {} W P o data).result
+    ∧ SetEq (parseData {} W P { o with forceDefault := d, deferDefault := b } data).errs (parseData {} W P o data).errs :=
+  parse_frame W LL P hwf o _ data hnd (frame_forceDefault W P o d b data hno)
+
+/-- **collect_errors / max_errors** change what is reported (`finish`), never what is parsed or found wrong. -/
+theorem C05_frame_collect [DecidableEq V] (W : World V) (LL : LowerLaws W) (P : Parser V) (hwf : P.wf W = true)
+    (o : Opts V) (a : Bool) (m : Option Nat) (data : List (Key × V)) (hnd : (data.map (·.1)).Nodup) :
+    MapEq (parseData {} W P { o with collectErrors := a, maxErrors := m } data).result (parseData {} W P o data).result
+    ∧ SetEq (parseData {} W P { o with collectErrors := a, maxErrors := m } data).errs (parseData {} W P o data).errs :=
+  parse_frame W LL P hwf o _ data hnd (frame_collect W P o a m data)
+
+/-- **ignore_alias_conflicts** changes the alias-conflict errors and nothing else: same values, same other errors. -/
+theorem C05_frame_alias_conflicts [DecidableEq V] (W : World V) (LL : LowerLaws W) (P : Parser V) (hwf : P.wf W = true)
+    (o : Opts V) (b : Bool) (data : List (Key × V)) (hnd : (data.map (·.1)).Nodup) :
+    MapEq (parseData {} W P { o with ignoreAliasConflicts := b } data).result (parseData {} W P o data).result
+    ∧ ∀ e, (∀ n, e ≠ .aliasConflict n) →
+        (e ∈ (parseData {} W P { o with ignoreAliasConflicts := b } data).errs ↔ e ∈ (parseData {} W P o data).errs) := by
+  have h' := C05_parse_data_refines W LL P hwf { o with ignoreAliasConflicts := b } data hnd
+  have h0 := C05_parse_data_refines W LL P hwf o data hnd
+  obtain ⟨hr, he⟩ := frame_conflicts W P o b data
+  refine ⟨fun k => ((h'.1 k).trans (by rw [hr])).trans (h0.1 k).symm, fun e hne => ?_⟩
+  have hp : (!e.isAliasConflict) = true := by
+    cases e <;> simp [Err.isAliasConflict]
+    exact hne _ rfl
+  rw [h'.2 e, h0.2 e]
+  have := congrArg (fun l => e ∈ l) he
+  simp only [List.mem_filter, hp, and_true] at this
+  exact Iff.of_eq this
+
+/-- **max_params / min_params** add their one error and nothing else. -/
+theorem C05_frame_params [DecidableEq V] (W : World V) (LL : LowerLaws W) (P : Parser V) (hwf : P.wf W = true)
+    (o : Opts V) (data : List (Key × V)) (hnd : (data.map (·.1)).Nodup) :
+    MapEq (parseData {} W P o data).result (parseData {} W P o.noParams data).result
+    ∧ ∀ e, e ∈ (parseData {} W P o data).errs ↔
+        e ∈ paramsCheck o data.length ∨ e ∈ (parseData {} W P o.noParams data).errs := by
+  have h' := C05_parse_data_refines W LL P hwf o.noParams data hnd
+  have h0 := C05_parse_data_refines W LL P hwf o data hnd
+  obtain ⟨hr, he⟩ := frame_params W P o data
+  refine ⟨fun k => ((h0.1 k).trans (by rw [hr])).trans (h'.1 k).symm, fun e => ?_⟩
+  rw [h0.2 e, h'.2 e, he, List.mem_append, paramsCheck_eq]
+
+/-- **addition** touches the unknown keys only: every field keeps its value, and the errors are those of the parse
+that ignores unknown keys plus what the addition rule says of each unknown key. -/
+theorem C05_frame_addition [DecidableEq V] (W : World V) (LL : LowerLaws W) (P : Parser V) (hwf : P.wf W = true)
+    (o : Opts V) (data : List (Key × V)) (hnd : (data.map (·.1)).Nodup) :
+    (∀ kf ∈ P.fields, dget kf.2.name (parseData {} W P o data).result
+        = dget kf.2.name (parseData {} W P { o with addition := .ignore } data).result)
+    ∧ ∀ e, e ∈ (parseData {} W P o data).errs ↔
+        e ∈ (parseData {} W P { o with addition := .ignore } data).errs
+        ∨ ∃ kv ∈ data, anyAccepts W P kv.1 = false ∧ e ∈ (parseAddition W P o kv.1 kv.2).2 := by
+  have wf := WF.of_wf hwf
+  have h' := C05_parse_data_refines W LL P hwf { o with addition := .ignore } data hnd
+  have h0 := C05_parse_data_refines W LL P hwf o data hnd
+  refine ⟨fun kf hkf => ?_, fun e => ?_⟩
+  · rw [h0.1, h'.1, contract_field_value LL wf o data hkf, contract_field_value LL wf _ data hkf]
+    rfl
+  · rw [h0.2 e, h'.2 e, (frame_addition W P o data).2, List.mem_append, List.mem_flatMap]
+    apply or_congr Iff.rfl
+    constructor
+    · rintro ⟨kv, hkv, he⟩
+      unfold extras at hkv
+      rw [List.mem_filter] at hkv
+      refine ⟨kv, hkv.1, by simpa using hkv.2, ?_⟩
+      rw [parseAddition_eq W P o kv]; exact he
+    · rintro ⟨kv, hkv, hun, he⟩
+      refine ⟨kv, ?_, ?_⟩
+      · unfold extras; rw [List.mem_filter]; exact ⟨hkv, by simp [hun]⟩
+      · rw [← parseAddition_eq W P o kv]; exact he
+
 /-! ### class hierarchies -/
 
-theorem buildAll_snoc (W : World V) (decls : List (ClassDecl V)) (c : ClassDecl V) :
-    buildAll W (decls ++ [c]) = buildAll W decls ++ [mkParserIn W (buildAll W decls) c] := by
-  simp [buildAll, List.foldl_append]
+/-- **Where `wf` comes from.**  Of the sixteen conjuncts of `Parser.wf`, ten hold for whatever `ClassParser.setup`
+builds, for every sequence of class declarations (`buildAll_struct`, Lemmas/C05Wf.lean); what is left to assume about a
+declaration is `Parser.wfNames`: no clash of names — distinct output and attribute names, no key accepted by two
+fields, no alias that is another field's key, no case-sensitive alias that lower-cases into a case-insensitive one,
+every dependency names a field.  Those are the conditions `generate_aliases` / `apply_fields` raise ConfigError on
+(a decidable superset; compared with ConfigError on generated declarations by the correspondence run). -/
+theorem C05_wf_of_no_name_clash (W : World V) (LL : LowerLaws W) (decls : List (ClassDecl V)) (B : Built V)
+    (hB : B ∈ buildAll W decls) (hn : B.parser.wfNames W = true) : B.parser.wf W = true :=
+  wf_of_struct (buildAll_struct W LL decls B hB) hn
+
+/-- for a class on its own -/
+theorem C05_wf_of_no_name_clash_single (W : World V) (LL : LowerLaws W) (c : ClassDecl V)
+    (hn : (mkParser W c).wfNames W = true) : (mkParser W c).wf W = true :=
+  wf_of_struct (mkParserIn_struct W LL [] (by simp) c) hn
 
 theorem buildAll_length (W : World V) (decls : List (ClassDecl V)) : (buildAll W decls).length = decls.length := by
   induction decls using Utv.List.rev_ind with
   | nil => rfl
   | snoc l c ih => rw [buildAll_snoc, List.length_append, List.length_append, ih]; rfl
 
-/-- **What a class's parser is does not depend on the classes declared after it** — in particular, declaring a
-subclass (with whatever `Options`) leaves the fields, alias maps and case-insensitive names of its bases as they
-were.  (In the code the subclass takes over the very same ParserField objects; the correspondence run parses the
-base again after its subclasses were declared.) -/
-theorem C05_later_declarations_irrelevant (W : World V) (decls more : List (ClassDecl V)) (i : Nat)
+/-- `buildAll` is a left fold that appends: a prefix of the declarations builds a prefix of the parsers.  This holds by
+the shape of `buildAll` alone (for any `mkParserIn`) — it records that the MODEL has no way for a later declaration to
+reach an earlier parser; that the CODE has none (a subclass takes over the very same ParserField objects and could
+mutate them, as seed C05-r2-B did) is checked by the correspondence run only, which parses the base again after its
+subclasses were declared.  Not a property theorem. -/
+theorem buildAll_prefix_restates_model (W : World V) (decls more : List (ClassDecl V)) (i : Nat)
     (h : i < decls.length) : (buildAll W (decls ++ more))[i]? = (buildAll W decls)[i]? := by
   induction more using Utv.List.rev_ind with
   | nil => simp
@@ -283,7 +571,7 @@ all of them. -/
 theorem C05_hierarchy_refines [DecidableEq V] (W : World V) (LL : LowerLaws W) (decls : List (ClassDecl V))
     (target : Nat) (B : Built V) (hB : (buildAll W decls)[target]? = some B)
     (runtime : Option (Opts V)) (data : List (Key × V)) (hnd : (data.map (·.1)).Nodup)
-    (hwf : B.parser.wf W = true) :
+    (hnames : B.parser.wfNames W = true) :
     let o := (runtime.getD B.opts).normalise
     ∃ out, initSchemaH {} W decls target runtime data = some out
       ∧ ((∃ m a, out = .ok m a) ↔ (contract W B.parser o data).errs = [])
@@ -294,6 +582,7 @@ theorem C05_hierarchy_refines [DecidableEq V] (W : World V) (LL : LowerLaws W) (
             ∧ dget kf.2.name m = (dget kf.2.name (contract W B.parser o data).result).filter
                 (fun v => !noOutput W o kf.2 v)) := by
   intro o
+  have hwf : B.parser.wf W = true := C05_wf_of_no_name_clash W LL decls B (List.mem_of_getElem? hB) hnames
   refine ⟨finish {} W B.parser o (parseData {} W B.parser o data), ?_, ?_, ?_, ?_, ?_⟩
   · unfold initSchemaH; rw [hB]; rfl
   · exact C05_success_iff W LL B.parser hwf o data hnd
@@ -312,6 +601,8 @@ def W₀ : World Nat where
   fp _ v := if v = 10 then some 1 else if v = 99 then none else some v
   pred _ v := v == 0
   addConv v := some v
+  copy v := v
+  schemaExcluded := [9]            -- key 9 = 'update', a method of Schema
 
 theorem W₀_laws : LowerLaws W₀ := by
   constructor
@@ -325,6 +616,41 @@ def cA : ClassDecl Nat := { fields := [{ attname := 0, aliasFrom := [2] }], opts
 example : (mkParser W₀ cA).wf W₀ = true := by decide
 example : (([(0, 1), (2, 1)] : List (Key × Nat)).map (·.1)).Nodup := by decide
 
+/-- a declaration that uses everything at once: `A: int = Field(alias='zz', alias_from=['a1'], case_insensitive=True)`,
+`b: int = Field(required=False, dependencies=['a1'])`, a method `m` (key 7), `Options(addition=True)` — well-formed -/
+def cRich : ClassDecl Nat :=
+  { fields := [{ attname := 1, alias := some 4, aliasFrom := [2], ci := some true },
+               { attname := 3, required := some .no, deps := [2] }]
+    opts := { addition := .allow }, excluded := [7] }
+
+example : (mkParser W₀ cRich).wf W₀ = true := by decide
+example : (mkParser W₀ cRich).wfNames W₀ = true := by decide
+/-- a clash `wfNames` rejects: `a: int = Field(alias_from=['b'])`, `b: int` — key 'b' (3) is accepted by two fields
+(`generate_aliases` / `apply_fields` raise ConfigError) -/
+example : (mkParser W₀ ({ fields := [{ attname := 0, aliasFrom := [3] }, { attname := 3 }], opts := {} } : ClassDecl Nat)).wfNames W₀
+    = false := by decide
+example : (mkParser W₀ cRich).excludeVars = [9, 7] := by decide
+/-- 'A' (1) and 'a' (0) both reach the case-insensitive field, stored under its alias; the method name is dropped,
+another unknown key is kept -/
+example : (fieldFirst {} W₀ (mkParser W₀ cRich) cRich.opts [(0, 10), (7, 3), (8, 3)]).result = [(4, 1), (8, 3)] := by
+  decide
+example : (dataFirst {} W₀ (mkParser W₀ cRich) cRich.opts [(0, 10), (7, 3), (8, 3)]).result = [(4, 1), (8, 3)] := by
+  decide
+
+/-- `Field(mode='')`: an empty mode string is falsy — no restriction (the field takes the input in mode 'w') -/
+def cEmptyMode : ClassDecl Nat := { fields := [{ attname := 0, mode := some [] }], opts := { mode := some 119 } }
+example : (mkParser W₀ cEmptyMode).wf W₀ = true := by decide
+example : (fieldFirst {} W₀ (mkParser W₀ cEmptyMode) cEmptyMode.opts [(0, 10)]).result = [(0, 1)] := by decide
+example : (contract W₀ (mkParser W₀ cEmptyMode) cEmptyMode.opts [(0, 10)]).result = [(0, 1)] := by decide
+
+/-- a world where `copy_value` is visible (`copy d = d + 100`): the default that is filled in is the copy, in both
+strategies and in the contract -/
+def W₁ : World Nat := { W₀ with copy := fun v => v + 100 }
+def cDef : ClassDecl Nat := { fields := [{ attname := 0, default := some 5 }], opts := {} }
+example : (fieldFirst {} W₁ (mkParser W₁ cDef) {} []).result = [(0, 105)]
+    ∧ (dataFirst {} W₁ (mkParser W₁ cDef) {} []).result = [(0, 105)]
+    ∧ (contract W₁ (mkParser W₁ cDef) {} []).result = [(0, 105)] := by decide
+
 /-- `no_input='a'` with `mode='ra'`, parsed in mode 'w' (field.md "Modes and input/output"): before
 fixes/C05-mode-string-flags.patch the field took the input although it does not support the mode. -/
 def cMode : ClassDecl Nat :=
@@ -337,6 +663,7 @@ theorem C05_legacy_mode_string_witness :
 
 example : dget 0 (fieldFirst {} W₀ (mkParser W₀ cMode) cMode.opts [(0, 1)]).result
       = dget 0 (contract W₀ (mkParser W₀ cMode) cMode.opts [(0, 1)]).result := by decide
+example : (mkParser W₀ cMode).wf W₀ = true := by decide
 
 /-- a required field with a callable `no_input` and `mode='r'`, parsed in mode 'w': before
 fixes/C05-required-callable-no-input.patch its absence was an error although it cannot be given. -/
@@ -349,6 +676,7 @@ theorem C05_legacy_required_callable_witness :
 
 example : (fieldFirst {} W₀ (mkParser W₀ cPred) cPred.opts []).errs
       = (contract W₀ (mkParser W₀ cPred) cPred.opts []).errs := by decide
+example : (mkParser W₀ cPred).wf W₀ = true := by decide
 
 /-- `class Account(Schema): A: int` (key 1 = 'A') and `class Lenient(Account): __options__ = Options(case_insensitive=True); b: int = 0`:
 the field taken over stays case-sensitive (as `Account` set it up), the new one is case-insensitive; `Account` itself
@@ -390,5 +718,17 @@ theorem C05_legacy_excluded_dependency_witness :
 example : (fieldFirst {} W₀ (mkParser W₀ cExcl) {} [(0, 99), (3, 1)]).errs = [.depsAbsence [0]]
     ∧ (dataFirst {} W₀ (mkParser W₀ cExcl) {} [(0, 99), (3, 1)]).errs = [.depsAbsence [0]]
     ∧ (contract W₀ (mkParser W₀ cExcl) {} [(0, 99), (3, 1)]).errs = [.depsAbsence [0]] := by decide
+example : (mkParser W₀ cExcl).wf W₀ = true := by decide
+
+/-- `class K(Schema): a: int` under `Options(addition=False)`, called with `update=3` (key 9: a method of Schema, so an
+excluded name): the documented rule for `addition=False` rejects every key that is no field.  Before
+fixes/C05-excluded-name-rejected.patch the excluded names were tested first and the key was dropped silently. -/
+theorem C05_legacy_excluded_name_witness :
+    parseAdditionLegacy W₀ (mkParser W₀ cA) { addition := .forbid } 9 3
+      ≠ additionContract W₀ false ((mkParser W₀ cA).excludeVars.contains 9) { addition := .forbid } (9, 3) := by decide
+
+example : parseAddition W₀ (mkParser W₀ cA) { addition := .forbid } 9 3 = (none, [.exceed 9]) := by decide
+example : (fieldFirst {} W₀ (mkParser W₀ cA) { addition := .forbid } [(0, 1), (9, 3)]).errs = [.exceed 9]
+    ∧ (dataFirst {} W₀ (mkParser W₀ cA) { addition := .forbid } [(0, 1), (9, 3)]).errs = [.exceed 9] := by decide
 
 end Utv.C05
